@@ -19,7 +19,7 @@ from vmon.models import c03_layout as M
 PROPERTY = "C03"
 LEVEL = "exploration"
 SHARDS = {"quick": 8, "thorough": 16}
-BUDGET = {"quick": 30.0, "thorough": 420.0}
+BUDGET = {"quick": 26.0, "thorough": 420.0}
 REQUIRE = {
     "cases": 20000,
     "segments_decoded": 20000,
@@ -41,6 +41,9 @@ REQUIRE = {
     "clip_rows_windowed": 200,
     "cache_coherence_checks": 2000,
     "window_checks": 200,
+    "same_config_other_width_cases": 1000,
+    "text_only_change_cases": 300,
+    "rows_before_render_checks": 5000,
     "random_cases": 1000,
     "dec_glyph_rows": 20,
     "enc:utf8/str": 2000,
@@ -214,7 +217,13 @@ def check_case(ctx, st, case, collect, fresh=False, light=False):
     for v in V:
         collect.append(("layout:" + v[0], v[1], v[2] + f" ; structure={L!r}"))
 
-    # ---- render
+    # ---- render (rows() first: it then has to compute the translation itself instead of reading the cached canvas)
+    n_before = None
+    if not fresh and (width + len(text)) % 2:
+        try:
+            n_before = tw.rows((width,))
+        except Exception as e:  # noqa: BLE001
+            collect.append(("rows", exc_kind(e), repr(e)[:300]))
     try:
         canv = tw.render((width,))
         rows = list(canv.text)
@@ -274,8 +283,10 @@ def check_case(ctx, st, case, collect, fresh=False, light=False):
         try:
             n = tw.rows((width,))
             C["rows_eq_checks"] += 1
-            if n != len(rows) or canv.rows() != len(rows):
-                collect.append(("rows", "rows()!=rendered-lines", f"rows()={n} canvas.rows()={canv.rows()} rendered {len(rows)}"))
+            if n_before is not None:
+                C["rows_before_render_checks"] += 1
+            if n != len(rows) or canv.rows() != len(rows) or (n_before is not None and n_before != len(rows)):
+                collect.append(("rows", "rows()!=rendered-lines", f"rows()={n} rows()-before-render={n_before} canvas.rows()={canv.rows()} rendered {len(rows)}"))
         except Exception as e:  # noqa: BLE001
             collect.append(("rows", f"raise:{type(e).__name__}", repr(e)[:300]))
         if not light:
@@ -445,6 +456,21 @@ def shrink(ctx, case, core):
                 if still(c):
                     cur = c
                     changed = True
+                    break
+        # replace wide / odd characters by a plain narrow one
+        t = cur["text"]
+        chars = list(t) if isinstance(t, str) else [t[D0:D1] for D0, D1 in _bounds(t, cur["enc"])]
+        for i in range(len(chars)):
+            if chars[i] in ("a", b"a", " ", b" ", "\n", b"\n"):
+                continue
+            for rep in ("a", "aa"):
+                cand = list(chars)
+                cand[i] = rep if isinstance(t, str) else rep.encode()
+                t2 = "".join(cand) if isinstance(t, str) else b"".join(cand)
+                c = dict(cur, text=t2)
+                if still(c):
+                    cur = c
+                    chars = cand
                     break
         for wd in range(1, cur["width"]):
             c = dict(cur, width=wd)
@@ -637,46 +663,85 @@ def _run(ctx):
                 for k in range(0, 5):
                     run_one(ctx, st, {"kind": "window", "enc": enc, "text": t, "width": w, "shift": k})
 
-    # ---- exhaustive core.  Order: length ascending so a budget cut loses the longest strings only.
-    # In quick mode center/right and bytes variants of the two longest lengths are strided (noted in extras).
-    idx = 0
-    complete = True
-    frac = ctx.pick(0.72, 0.80)
-    for ln in range(0, maxlen + 1):
-        for enc, mode in EXH_ENCODINGS:
-            alpha = exhaustive_alphabet(enc, mode)
-            for tup in itertools.product(alpha, repeat=ln):
-                idx += 1
-                if not ctx.mine(idx):
-                    continue
-                if not ctx.more(frac):
-                    complete = False
-                    break
-                s = "".join(tup)
-                b = s.encode(enc)
-                full = ln <= maxlen - 2 or (idx // ctx.nshards) % ctx.pick(6, 4) == 0
-                for text in (s, b):
-                    for w in widths:
-                        for wrap in WRAPS:
-                            if full:
-                                for al in ALIGNS:
-                                    run_one(ctx, st, {"enc": enc, "text": text, "width": w, "wrap": wrap, "align": al}, light=al != "left")
-                            else:
-                                # rotate alignment so every alignment still meets every (width, wrap) class
-                                al = ALIGNS[(idx // ctx.nshards + w + len(wrap)) % 3]
-                                if text is b and (idx // ctx.nshards + w) % 2:
-                                    continue
-                                run_one(ctx, st, {"enc": enc, "text": text, "width": w, "wrap": wrap, "align": al}, light=True)
-                if ln <= 4 and idx % 3 == 0:
-                    run_one(ctx, st, {"kind": "fixed", "enc": enc, "text": s, "width": 1, "wrap": "space", "align": "left"})
-                    run_one(ctx, st, {"kind": "fixed", "enc": enc, "text": b, "width": 1, "wrap": "clip", "align": "right"})
-            if not complete:
-                break
-        ctx.extra[f"exhaustive_len{ln}_complete"] = complete
-        if not complete:
-            break
-    ctx.extra["exhaustive_complete"] = complete
+    # ---- exhaustive core, in phases ordered by value so that a budget cut (loaded machine) loses the least:
+    #   P0  every string of length <= maxlen-2: full product widths x wraps x aligns x {str, bytes} x 3 encodings
+    #   PA  every longer string: widths x wraps, alignment rotating; utf-8 as str, euc-jp / iso8859-1 as bytes
+    #   PB  the other text type of PA (utf-8 bytes; euc-jp / iso8859-1 str)
+    #   PC  full alignment product on a stride of the longer strings
+    # Each shard counts the phases it completed (counter exh_phase_complete:<P> == number of shards when complete).
+    frac = ctx.pick(0.75, 0.82)
     ctx.extra["exhaustive_maxlen"] = maxlen
+    short = maxlen - 2
+
+    def strings(lens):
+        i = 0
+        for ln in lens:
+            for enc, mode in EXH_ENCODINGS:
+                alpha = exhaustive_alphabet(enc, mode)
+                for tup in itertools.product(alpha, repeat=ln):
+                    i += 1
+                    if ctx.mine(i):
+                        yield i // ctx.nshards, ln, enc, mode, "".join(tup)
+
+    def phase(name, lens, body):
+        for j, ln, enc, mode, s in strings(lens):
+            if not ctx.more(frac):
+                ctx.count(f"exh_phase_complete:{name}", 0)
+                return False
+            body(j, ln, enc, mode, s)
+            ctx.count(f"exh_strings:{name}")
+        ctx.count(f"exh_phase_complete:{name}")
+        return True
+
+    def text_only(enc, text):
+        """change nothing but the text (same width / wrap / align as the widget's previous case)"""
+        pv = st.prev.get((enc, isinstance(text, bytes)))
+        if pv and pv["text"] != text:
+            run_one(ctx, st, {"enc": enc, "text": text, "width": pv["width"], "wrap": pv["wrap"], "align": pv["align"]}, light=True)
+            ctx.count("text_only_change_cases")
+
+    def p0(j, ln, enc, mode, s):
+        for text in (s, s.encode(enc)):
+            text_only(enc, text)
+            for w in widths:
+                for wrap in WRAPS:
+                    for al in ALIGNS:
+                        run_one(ctx, st, {"enc": enc, "text": text, "width": w, "wrap": wrap, "align": al}, light=al != "left")
+        # same configuration at descending then ascending widths: only the translation cache can tell them apart
+        for text in (s, s.encode(enc)):
+            for w in (6, 3, 5, 2, 1, 4):
+                run_one(ctx, st, {"enc": enc, "text": text, "width": w, "wrap": WRAPS[j % 4], "align": ALIGNS[j % 3]}, light=True)
+                ctx.count("same_config_other_width_cases")
+        if j % 3 == 0:
+            run_one(ctx, st, {"kind": "fixed", "enc": enc, "text": s, "width": 1, "wrap": "space", "align": "left"})
+            run_one(ctx, st, {"kind": "fixed", "enc": enc, "text": s.encode(enc), "width": 1, "wrap": "any", "align": "right"})
+
+    def rotating(primary):
+        def body(j, ln, enc, mode, s):
+            as_str = (mode == "utf8") == primary
+            text = s if as_str else s.encode(enc)
+            for w in widths:
+                for wrap in WRAPS:
+                    al = ALIGNS[(j + w + len(wrap)) % 3]
+                    run_one(ctx, st, {"enc": enc, "text": text, "width": w, "wrap": wrap, "align": al}, light=True)
+
+        return body
+
+    def pc(j, ln, enc, mode, s):
+        if j % ctx.pick(8, 5):
+            return
+        for text in (s, s.encode(enc)):
+            for w in widths:
+                for wrap in WRAPS:
+                    for al in ALIGNS:
+                        run_one(ctx, st, {"enc": enc, "text": text, "width": w, "wrap": wrap, "align": al}, light=True)
+
+    longer = range(short + 1, maxlen + 1)
+    ok = phase("P0", range(0, short + 1), p0)
+    ok = ok and phase("PA", longer, rotating(True))
+    ok = ok and phase("PB", longer, rotating(False))
+    ok = ok and phase("PC", longer, pc)
+    ctx.extra["exhaustive_complete_shard0"] = ok
 
     # ---- random
     k = 0
@@ -701,6 +766,15 @@ def _run(ctx):
         ctx.counters["random_cases"] += 1
         if k <= 2:
             ctx.sample({k2: v for k2, v in case.items() if k2 != "prev"})
+        if rng.random() < 0.3:
+            cut = rng.randint(0, len(s))
+            s2 = s[cut:] + s[:cut] + rng.choice(("", "a", " b"))
+            text_only(enc, s2 if isinstance(text, str) else to_bytes(s2, enc, mode))
+        if rng.random() < 0.4:
+            for _ in range(2):
+                w2 = max(1, w + rng.choice((-7, -3, -2, -1, 1, 2, 5)))
+                run_one(ctx, st, dict(case, width=w2), light=True)
+                ctx.count("same_config_other_width_cases")
         r = rng.random()
         if r < 0.1:
             run_one(ctx, st, dict(case, kind="fixed", prev=None))
